@@ -92,7 +92,7 @@ def _tla(v):
 
 def render(scripts):
     body = ',\n'.join('  << ' + ', '.join(_tla(e) for e in sc) + ' >>' for sc in scripts)
-    return '---- MODULE MCBlobScripts ----\nEXTENDS ZBlobScript\nTheScripts == <<\n%s\n>>\n====\n' % body
+    return '---- MODULE ZBlobScriptData ----\nEXTENDS Integers\nTheScripts == <<\n%s\n>>\n====\n' % body
 
 
 _NODE = re.compile(r'^(-?\d+) \[label="((?:[^"\\]|\\.)*)"(?:,tooltip="(?:[^"\\]|\\.)*")?(,style = filled)?\]')
@@ -106,15 +106,14 @@ def evaluate(scripts, c, workdir, timeout=600, workers=1):
     {action, args, state}; skipped calls do not appear."""
     os.makedirs(workdir, exist_ok=True)
     tlc._prepare('ZBlobScript', workdir)
-    with open(os.path.join(workdir, 'MCBlobScripts.tla'), 'w') as f:
+    with open(os.path.join(workdir, 'ZBlobScriptData.tla'), 'w') as f:
         f.write(render(scripts))
     k = dict(bd.tla_consts(c))
-    k['Scripts'] = '<- TheScripts'
     cfg = os.path.join(workdir, 'scripts.cfg')
     tlc.write_cfg(cfg, constants=k, init='SInit', next_='SNext')
     dot = os.path.join(workdir, 'g.dot')
     cmd = tlc._java_cmd() + ['-workers', str(workers), '-metadir', os.path.join(workdir, 'meta'), '-noGenerateSpecTE',
-                             '-dump', 'dot,actionlabels', dot, '-config', cfg, os.path.join(workdir, 'MCBlobScripts.tla')]
+                             '-dump', 'dot,actionlabels', dot, '-config', cfg, os.path.join(workdir, 'ZBlobScript.tla')]
     e = dict(os.environ)
     e.pop('JAVA_TOOL_OPTIONS', None)
     t0 = time.time()
